@@ -447,9 +447,11 @@ def judge(acc, fid, cname, api, label, content, pw, pwlab):
         return "key-despite-checkints"
     m = pub_matches_file(key, content, o)
     if m is False:
-        acc.violation("loaded-key-halves-disagree|%s|differs-from-public-section-of-the-file" % type(key).__name__,
-                      {"file": fid, "edit": label, "loader": "%s.%s" % (cname, api)}, mkrep())
-        return "key-mismatch"
+        # The loaded key's own halves agree (its signature verified under its public encoding above); only
+        # the *file's* redundant public section was damaged and is ignored by this loader.  The statement
+        # speaks about the key that is yielded, so this is counted, not judged (DESIGN 7).
+        acc.count("loaded_key_consistent_but_differs_from_damaged_public_section_of_file")
+        return "key"
     if m is True:
         acc.count("loaded_key_equals_file_public_section")
     return "key"
